@@ -9,6 +9,7 @@
 EXTENDS Timeout, Json, IOUtils
 
 Traces == JsonDeserialize(IOEnv.TRACE_FILE)
+NoConfigs == {}      \* the model's constants are not used by the monitor
 
 VARIABLE tid
 tvars == <<vars, tid>>
@@ -16,7 +17,7 @@ tvars == <<vars, tid>>
 NoCfg == [ps |-> [kind |-> "omit", t |-> UNSET, c |-> UNSET, r |-> UNSET], D |-> NONE, sch |-> "http", rs |-> <<>>]
 TInit == /\ tid = 1
          /\ cfg = NoCfg /\ pc = "done" /\ k = 1 /\ ctor = "" /\ poolT = NoTimeout /\ reqT = NoTimeout
-         /\ connOpen = FALSE /\ connTimeout = NONE /\ clock = 0 /\ hist = <<>>
+         /\ connOpen = FALSE /\ connTimeout = NONE /\ sockT = NONE /\ clock = 0 /\ hist = <<>>
          /\ cur = Blank(NoCfg.ps, 0)
 
 TNext == /\ tid <= Len(Traces)
